@@ -35,7 +35,11 @@ int __wrap_epoll_pwait(int epfd, struct epoll_event* ev, int max, int timeout, c
   int n;
   if (g_loop == NULL || epfd != g_loop->backend_fd)
     return __real_epoll_pwait(epfd, ev, max, timeout, ss);
-  if (!quiet) printf("w%d ", timeout);
+  if (!quiet) {
+    extern int poll_flags(void);
+    int f = poll_flags();
+    printf("w%d:%d%d%d%d ", timeout, (f >> 3) & 1, (f >> 2) & 1, (f >> 1) & 1, f & 1);
+  }
   n = __real_epoll_pwait(epfd, ev, max, 0, ss);
   if (n != 0) return n;
   if (timeout == 0) return 0;
@@ -61,6 +65,18 @@ static uv_loop_t loop;
 
 static void do_ops(char* ops, int in_cb);
 static int usable(int i) { return i >= 0 && i < nh && !H[i]->closed; }
+
+/* what the blocking rules of the property depend on, from API-level observations */
+int poll_flags(void) {
+  int j, idle = 0, closing = 0, work = loop.active_reqs.count > 0;
+  for (j = 0; j < nh; j++) {
+    uv_handle_t* h = &H[j]->u.h;
+    if (H[j]->kind == 'i' && uv_is_active(h)) idle = 1;
+    if (H[j]->closing && !H[j]->closed) closing = 1;
+    if (uv_is_active(h) && uv_has_ref(h) && !uv_is_closing(h)) work = 1;
+  }
+  return (idle << 3) | (closing << 2) | ((loop.stop_flag ? 1 : 0) << 1) | work;
+}
 
 static void on_cb(int tag, int id) {
   int k;
